@@ -30,7 +30,7 @@ func (c *Ctx) retVals(r *ssa.Return, i int) []ssa.Value {
 				}
 			}
 			if last != nil {
-				return c.P.Sources(last)
+				return c.P.SourcesAt(last, r)
 			}
 			// a named result read by a bare return: the assignments that reach this return (and nil, if none need to)
 			if vals, zero, ok := c.P.ReachingStores(ld); ok && (len(vals) > 0 || zero) {
@@ -270,6 +270,33 @@ func registerAndCommit(c *Ctx) {
 				// unknown consumer => error, no store
 				has := aHas(q.param(0)+".consumers", aP(q.param(1)))
 				q.expectCond("COND", "the store happens iff the consumer is registered", u, nil, an.DNF{conj(lit(has, an.SPos))}, keepForms(has))
+			}
+		}
+		// ... and nothing else makes commit fail: a registered consumer's commit is never refused (a consumer that read
+		// up to a forced trim point without committing has lost nothing; refusing its Commit leaves it Rollback into the
+		// removed region as the only way on)
+		{
+			var okx ssa.Value
+			for _, in := range an.AllInstrs(q.fn, func(in ssa.Instruction) bool {
+				l, ok := in.(*ssa.Lookup)
+				return ok && l.CommaOk && an.IsLoadOfField(l.X, "Buffer.consumers")
+			}) {
+				okx = resultOf2(in.(*ssa.Lookup), 1)
+			}
+			ifs, negs := P.IfsOn(q.fn, func(cond ssa.Value) bool { return okx != nil && cond == okx })
+			for _, r := range returnsOf(q.fn) {
+				if allNil(c.retVals(r, 0)) {
+					continue
+				}
+				good := len(ifs) == 1
+				if good {
+					miss := 1
+					if negs[0] {
+						miss = 0
+					}
+					good = q.onlyViaEdge(r, ifs[0], miss)
+				}
+				q.add("PATH", "commit fails only for a consumer that is not registered", good, pickS(good, "the error return is reached only through the failed lookup", "commit can refuse a registered consumer: reads it has not lost could never be committed"), r)
 			}
 		}
 	}
